@@ -326,7 +326,7 @@ def run_scenarios(ck, scenarios, binary=None, timeout=900):
     return events
 
 
-def validate(ck, tr, fixpred=False, fixleave=False, timeout=900):
+def validate(ck, tr, fixpred=False, fixleave=False, fixwrap=False, timeout=900):
     """run Trace_ChordKV over the translated trace; returns (viol, div, quiet, consumed) record lists"""
     text = "\n".join(json.dumps(x) for x in tr.lines) + "\n"
     cfg = open(os.path.join(vf.VERIF, "spec", "Trace_ChordKV.cfg")).read()
@@ -334,6 +334,8 @@ def validate(ck, tr, fixpred=False, fixleave=False, timeout=900):
         cfg = cfg.replace("FixPred = FALSE", "FixPred = TRUE")
     if fixleave:
         cfg = cfg.replace("FixLeave = FALSE", "FixLeave = TRUE")
+    if fixwrap:
+        cfg = cfg.replace("FixWrap = FALSE", "FixWrap = TRUE")
     r = ck.tlc("Trace_ChordKV", cfg, files={"trace.ndjson": text}, workers=1, timeout=timeout)
     viol = [x for x in r.printed if x["t"] == "viol"]
     div = [x for x in r.printed if x["t"] in ("div", "opdiv")]
@@ -466,6 +468,7 @@ CONSTANTS
   L = 4
   FixPred = %(fixpred)s
   FixLeave = %(fixleave)s
+  FixWrap = %(fixwrap)s
   MaxTry = 2
   MCLayout <- %(lay)s
   InitMembers = %(init)s
@@ -480,8 +483,8 @@ CHECK_DEADLOCK FALSE
 ALL_INVS = "InvSingleCopy InvNoLoss InvNoGhost InvOneOp InvNoStuck InvPlacement InvReachable InvNoBad InvNoNonRetryable"
 
 
-def mc_cfg(fixpred, fixleave, lay="Lay4", init="{1, 2, 4}", joiners="{3}", leavers="{2}", maxops=2, invs=ALL_INVS):
-    return MC_CFG % dict(fixpred="TRUE" if fixpred else "FALSE", fixleave="TRUE" if fixleave else "FALSE", lay=lay, init=init, joiners=joiners, leavers=leavers, maxops=maxops, invs=invs)
+def mc_cfg(fixpred, fixleave, fixwrap=False, lay="Lay4", init="{1, 2, 4}", joiners="{3}", leavers="{2}", maxops=2, invs=ALL_INVS):
+    return MC_CFG % dict(fixpred="TRUE" if fixpred else "FALSE", fixleave="TRUE" if fixleave else "FALSE", fixwrap="TRUE" if fixwrap else "FALSE", lay=lay, init=init, joiners=joiners, leavers=leavers, maxops=maxops, invs=invs)
 
 
 def findings_from(tr, viol, div, quiet, scenarios):
